@@ -169,11 +169,61 @@ fn step<T: BE>(m: &mut Banded<T>, op: &Value) -> Result<Res<T>, String> {
 fn zeros_like(v: &Value) -> Value { Value::from(vec![0i64; v.as_array().map(|a| a.len()).unwrap_or(0)]) }
 
 fn run_hist<T: BE>(case: &Value, out: &mut Out) { run_hist_from::<T>(case, out, 0) }
-fn run_hist_from<T: BE>(case: &Value, out: &mut Out, k0: usize) {
+fn run_hist_from<T: BE>(case: &Value, out: &mut Out, k0: usize) { run_on::<T>(None, case, out, k0); }
+/// a second object built in one of several ways ("plain", "resized": grown from a 1 x 1 matrix, "clone": a clone whose original is dropped)
+fn aux_build<T: BE>(b: &Value, how: &str) -> Banded<T> {
+    match how {
+        "resized" => { let (n, m1, m2) = (getu(b, "n"), getu(b, "m1"), getu(b, "m2")); let src = band_from::<T>(b);
+            let mut a = Banded::<T>::new(1, 0, 0, T::from_ri(5, 0)); a.resize(n, m1, m2);
+            for i in 0..n { for j in 0..n { if in_band(n, m1, m2, i, j) { a[(i, j)] = src[(i, j)]; } } } a }
+        "clone" => { let o = band_from::<T>(b); let c = o.clone(); drop(o); c }
+        _ => band_from::<T>(b),
+    }
+}
+/// the history of `case` on the object `m0` (or on the object the case prescribes); returns the object
+fn run_on<T: BE>(m0: Option<Banded<T>>, case: &Value, out: &mut Out, k0: usize) -> Option<Banded<T>> {
     let cid = geti(case, "cid");
-    let mut m = match if k0 == 0 { construct::<T>(case, out) } else { guarded(|| band_from::<T>(&case["band"])).ok() } { Some(m) => m, None => return };
+    let mut m = match m0 { Some(m) => m, None => match if k0 == 0 { construct::<T>(case, out) } else { guarded(|| band_from::<T>(&case["band"])).ok() } { Some(m) => m, None => return None } };
+    let mut aux: Option<Banded<T>> = None; let mut snap = [Value::Null, Value::Null];
     for (k, op) in case["ops"].as_array().unwrap().iter().enumerate() {
         let k = k + k0;
+        // ---- a second, persistent object: Clone::clone_from in both directions, independence, ==
+        match gets(op, "op") {
+            "aux_new" => { aux = guarded(|| aux_build::<T>(&op["b"], gets(op, "how"))).ok(); if let Some(a) = &aux { snap = [jband(a, Part::Re), jband(a, Part::Im)]; } continue; }
+            "on_aux" => { if let Some(a) = aux.take() { let sub = json!({"cid": cid, "kind": "hist", "ops": op["ops"]}); aux = run_on::<T>(Some(a), &sub, out, 1000 * (k + 1)); if let Some(a) = &aux { snap = [jband(a, Part::Re), jband(a, Part::Im)]; } } continue; }
+            name @ ("clone_from" | "clone_into" | "aux_same" | "reclone" | "eq") => {
+                let seq = gets(case, "kind") == "seq";
+                let pre = [jband(&m, Part::Re), jband(&m, Part::Im)];
+                let mut extra: Vec<(&str, [Value; 2])> = vec![]; let mut flags: Vec<(&str, Value)> = vec![];
+                let r = guarded(|| match name {
+                    "clone_from" => { let a = aux.as_ref().unwrap_or_else(|| tool_error("no aux")); extra.push(("b", [jband(a, Part::Re), jband(a, Part::Im)])); m.clone_from(a); extra.push(("bpost", [jband(a, Part::Re), jband(a, Part::Im)])); }
+                    "clone_into" => { let a = aux.as_mut().unwrap_or_else(|| tool_error("no aux")); a.clone_from(&m); snap = [jband(a, Part::Re), jband(a, Part::Im)]; extra.push(("rb", snap.clone())); }
+                    "aux_same" => { let a = aux.as_ref().unwrap_or_else(|| tool_error("no aux")); extra.push(("rb", [jband(a, Part::Re), jband(a, Part::Im)])); extra.push(("want", snap.clone())); }
+                    "reclone" => { let c = m.clone(); let old = std::mem::replace(&mut m, c); drop(old); }
+                    _ => { let o = match gets(op, "with") { "clone" => m.clone(), "entry" => { let mut c = m.clone(); let (i, j) = (getu(op, "i"), getu(op, "j")); c[(i, j)] = c[(i, j)] + T::from_ri(1, 0); c } _ => band_from::<T>(&op["b"]) };
+                        extra.push(("b", [jband(&o, Part::Re), jband(&o, Part::Im)])); flags.push(("r", json!(m == o))); flags.push(("rne", json!(m != o))); }
+                });
+                let post = [jband(&m, Part::Re), jband(&m, Part::Im)];
+                if name == "eq" {   // one event with both parts
+                    let mut e = json!({"op": name, "ty": T::NAME, "cid": cid, "k": k, "panic": r.is_err(), "pre": pre[0], "post": post[0], "with": op["with"]});
+                    if seq { e["seq"] = json!(true); }
+                    if T::CX { e["prei"] = pre[1].clone(); }
+                    for (key, v) in &extra { e[*key] = v[0].clone(); if T::CX { let ki = format!("{}i", key); e[ki.as_str()] = v[1].clone(); } }
+                    for (key, v) in &flags { e[*key] = v.clone(); }
+                    if r.is_err() { e["b"] = pre[0].clone(); if T::CX { e["bi"] = pre[1].clone(); } e["r"] = json!(false); e["rne"] = json!(false); }
+                    out.ev(e); continue;
+                }
+                for w in 0..(if T::CX { 2 } else { 1 }) {
+                    let mut e = json!({"op": name, "ty": T::NAME, "cid": cid, "k": k, "panic": r.is_err(), "pre": pre[w], "post": post[w], "part": if w == 0 { "re" } else { "im" }});
+                    if seq { e["seq"] = json!(true); }
+                    for key in ["b", "bpost", "rb", "want"] { e[key] = post[w].clone(); }      // (fields the trace spec may look at must exist)
+                    for (key, v) in &extra { e[*key] = v[w].clone(); }
+                    out.ev(e);
+                }
+                continue;
+            }
+            _ => {}
+        }
         // a DIFFERENT object on the same thread, in the middle of the history: its own (stand-alone) events
         if gets(op, "op") == "other" { let mut sub = op["case"].clone(); sub["cid"] = json!(cid); run_hist_from::<T>(&sub, out, 1000 * (k + 1)); continue; }
         let name = match gets(op, "op") { "clone_solve" => "solve", "clone_det" => "det", s => s };
@@ -255,6 +305,7 @@ fn run_hist_from<T: BE>(case: &Value, out: &mut Out, k0: usize) {
             out.ev(e);
         }
     }
+    Some(m)
 }
 
 // ------------------------------------------------------------------ references (trusted measurement code)
@@ -312,6 +363,39 @@ pub fn ref_gepp(a: &[Vec<CDD>], b: &[CDD]) -> (CDD, f64, Vec<CDD>) {
     (det, minp, x)
 }
 fn cabs(p: (f64, f64)) -> f64 { p.0.hypot(p.1) }
+/// P^T |L||U| of the LU factorisation with partial pivoting in double-double (rows in the order of A); None when a pivot choice
+/// is ambiguous (two candidates within 1e-6 relative: another correct tie-break could take the other row) or a pivot is zero.
+/// Whoever exchanges rows by magnitude obtains these factors up to rounding, and then |b - A x| <= gamma_3n |L||U||x|
+/// componentwise (Higham, Thm 9.4) - a bound WITHOUT the worst-case growth 2^(n-1).  (A banded matrix is its dense twin:
+/// the candidates below the band are zeros.)
+pub fn ref_absprod(a: &[Vec<CDD>]) -> Option<Vec<Vec<f64>>> {
+    let n = a.len(); let mut m: Vec<Vec<CDD>> = a.to_vec(); let mut perm: Vec<usize> = (0..n).collect();
+    for k in 0..n {
+        let mut p = k; let mut best = m[k][k].abs(); let mut second = 0.0f64;
+        for i in k + 1..n { let v = m[i][k].abs(); if v > best { second = best; best = v; p = i; } else if v > second { second = v; } }
+        if !(best > 0.0) || !best.is_finite() || second > best * (1.0 - 1e-6) { return None; }
+        if p != k { m.swap(k, p); perm.swap(k, p); }
+        let pv = m[k][k];
+        for i in k + 1..n { let f = m[i][k].div(pv); m[i][k] = f; if f.abs() != 0.0 { for j in k + 1..n { let t = f.mul(m[k][j]); m[i][j] = m[i][j].sub(t); } } }
+    }
+    let mut out = vec![vec![0.0f64; n]; n];
+    for i in 0..n { for j in 0..n { let mut s = if i <= j { m[i][j].abs() } else { 0.0 }; for k in 0..i.min(j + 1) { s += m[i][k].abs() * m[k][j].abs(); } out[perm[i]][j] = s; } }
+    if out.iter().flatten().all(|v| v.is_finite()) { Some(out) } else { None }
+}
+/// componentwise residual of x in units of eps * (|L||U||x|)_i, maximum over the rows; residual accumulated in double-double
+pub fn sharp_units(a: &[Vec<(f64, f64)>], x: &[(f64, f64)], b: &[(f64, f64)]) -> Option<i64> {
+    let n = a.len(); let ac: Vec<Vec<CDD>> = a.iter().map(|r| r.iter().map(|p| CDD::from(p.0, p.1)).collect()).collect();
+    let lu = ref_absprod(&ac)?;
+    if x.iter().any(|p| !p.0.is_finite() || !p.1.is_finite()) { return Some(SAT); }
+    let mut worst = 0i64;
+    for i in 0..n {
+        let mut s = CDD::ZERO.sub(CDD::from(b[i].0, b[i].1));
+        for j in 0..n { if a[i][j] != (0.0, 0.0) { s = s.add(ac[i][j].mul(CDD::from(x[j].0, x[j].1))); } }
+        let den: f64 = (0..n).map(|k| lu[i][k] * cabs(x[k])).sum(); let r = s.abs();
+        if r != 0.0 { worst = worst.max(units(r, f64::EPSILON * den)); }
+    }
+    Some(worst)
+}
 /// a value of type T times 2^k (exact power-of-two rescaling; floats only)
 pub fn sc<T: BE>(x: T, k: i64) -> T { if k == 0 { x } else { let c = x.to_c(); T::from_f(scale2(c.0, k), scale2(c.1, k)) } }
 /// x * 2^k, exactly (unless the result itself leaves the f64 range); the factor is applied in pieces of at most 2^+-1000
@@ -403,6 +487,12 @@ fn run_lu<T: BE>(case: &Value, out: &mut Out) {
         if det_ok { emit(out, &mut k, json!({"op": "det_units", "n": n, "cxf": T::CX, "panic": det.is_err(), "units": if det.is_ok() { du } else { SAT }, "singular": singular})); }
         // solve: only where the reference elimination meets no (nearly) zero pivot
         if !singular { emit(out, &mut k, json!({"op": "solve_units", "n": n, "cxf": T::CX, "panic": sol.is_err(), "units": if sol.is_ok() { su } else { SAT }})); }
+        // growth adversaries: the componentwise bound with the reference factors |L||U| (no worst-case growth in the guard)
+        if case.get("sharp").is_some() {
+            let cu = match &sol { Ok(x) => sharp_units(&dc, &x.vec.iter().map(|v| sc(v.to_c(), ea - eb)).collect::<Vec<_>>(), &bc), Err(_) => Some(SAT) };
+            match cu { Some(u) => emit(out, &mut k, json!({"op": "solve_sharp", "n": n, "cxf": T::CX, "panic": sol.is_err(), "cunits": u})),
+                       None => emit(out, &mut k, json!({"op": "solve_sharp", "n": n, "cxf": T::CX, "panic": sol.is_err(), "cunits": 0, "noref": true})) }
+        }
     }
     // product and index on the same matrix (integer data only)
     let ints = |b: &Value| inband_ints(b, "c") && inband_ints(b, "ci");
@@ -633,6 +723,10 @@ pub fn gen(tier: &str, seed: u64, out: &mut Out) {
         for (m1, m2) in geos { let mut v = vec![]; scaled_cases(&mut rng, n, m1, m2, quick, &mut v); for c in v { push(out, c); } }
     }
     { let mut sink = |c: Value| push(out, c); exact_and_sweep(&mut rng, quick, seed, &mut sink); }
+    // (m) the std-trait forms: Clone::clone_from between objects of every relation of geometries, ==, clone-and-drop
+    { let mut sink = |c: Value| push(out, c); clonefrom_cases(&mut rng, quick, &mut sink); }
+    // (l) growth adversaries for banded partial pivoting (floats), judged by the growth-free componentwise bound
+    { let mut sink = |c: Value| push(out, c); growth_cases(&mut rng, quick, &mut sink); }
     // (j) binary operations on operands that agree in every aggregate a storage check could see but differ in geometry
     { let mut sink = |c: Value| push(out, c); mismatch_cases(&mut rng, quick, &mut sink); }
     // (k) what a refused call leaves behind: the same object, a clone and another object right after it
@@ -1202,4 +1296,106 @@ fn poison_cases(rng: &mut StdRng, quick: bool, push: &mut dyn FnMut(Value)) {
             }
         } }
     }
+}
+
+// ------------------------------------------------------------------ growth adversaries for banded partial pivoting
+/// a float as {m, e} with a 24-bit significand
+fn jfl(v: f64) -> Value { if v == 0.0 { return json!(0); } let e = v.abs().log2().floor() as i32 - 23; json!({"m": (v / (2.0f64).powi(e)).round() as i64, "e": e}) }
+/// Banded analogue of the graded Wilkinson family: in every column the diagonal is the smallest candidate (zero or tiny), the
+/// first sub-diagonal entry is about 1 and the k-th candidate is rho times the previous one (rho in 1.5 .. 16; signs mixed),
+/// all with inexact noise; the upper band is wide (m2 = n - 1) and carries the last one or two columns of O(1) entries (or a
+/// full band of small noise as well), so that multipliers larger than 1 compound along the elimination.  Pivoting on the
+/// largest candidate keeps every multiplier below 1; keeping an earlier, smaller row costs a factor of up to rho^(m1-1) per step.
+fn growth_cases(rng: &mut StdRng, quick: bool, push: &mut dyn FnMut(Value)) {
+    let rhos = [1.5f64, 2.0, 4.0, 7.9, 8.1, 16.0]; let mut t = 0usize;
+    for n in 8..=12usize { for m1 in 2..=4usize { for (q, rho) in rhos.iter().enumerate() { for variant in 0..4usize { t += 1;
+        for rep in 0..(if quick { 1 } else { 2 }) {
+        let cx = (t + rep) % 2 == 1; let m2 = n - 1; let mm = m1 + m2 + 1;
+        let noise = |rng: &mut StdRng| 1.0 + 0.03 * (rng.gen_range(-1000..=1000) as f64 / 1000.0);
+        let neg = t % 3 != 0;      // deeper candidates of the opposite sign: the eliminations add up in the last columns
+        let mut a = vec![vec![0.0f64; n]; n];
+        for j in 0..n { for i in j..n.min(j + m1 + 1) {
+            a[i][j] = if i == j { if variant == 3 { 0.0 } else { [0.0, 0.05, -0.2][(t + j) % 3] * noise(rng) } } else { let g = (if variant == 3 { if i == j + 1 { 1.0 } else { *rho } } else { rho.powi((i - j - 1) as i32) }) * noise(rng);   // (variant 3: all deeper candidates about rho)
+             if i > j + 1 && neg { -g } else { g } };
+        } }
+        let lastcols = if variant == 1 { 2 } else { 1 };
+        for i in 0..n { for j in (n - lastcols)..n { if j > i || (j == n - 1 && i == n - 1) { a[i][j] = (1.0 / 3.0 + 0.01 * i as f64) * noise(rng); } } }
+        if variant == 2 { for i in 0..n { for j in i + 1..n - 1 { a[i][j] = 0.02 * (noise(rng) - 1.0) * 30.0; } } }
+        // complex: every entry turned by a phase of its own column and row (magnitudes unchanged)
+        let ph = [(1.0f64, 0.0f64), (0.0, 1.0), (0.6, 0.8), (-0.8, 0.6), (0.0, -1.0)];
+        let x0: Vec<(f64, f64)> = (0..n).map(|j| (1.0 + 0.1 * j as f64, if cx { 0.3 - 0.05 * j as f64 } else { 0.0 })).collect();
+        let (mut d, mut di) = (vec![], vec![]); let mut ac = vec![vec![(0.0f64, 0.0f64); n]; n];
+        for i in 0..n { for c in 0..mm { let j = i as isize + c as isize - m1 as isize;
+            if j >= 0 && (j as usize) < n { let j = j as usize; let p = if cx { ph[(2 * i + 3 * j + q) % 5] } else { (1.0, 0.0) };
+                let (re, im) = (jfl(a[i][j] * p.0), jfl(a[i][j] * p.1)); ac[i][j] = (fval(&re), fval(&im)); d.push(re); di.push(im); }
+            else { d.push(json!(rand_pad(rng))); di.push(json!(0)); } } }
+        let b: Vec<(f64, f64)> = (0..n).map(|i| { let mut s = (0.0, 0.0); for j in 0..n { s.0 += ac[i][j].0 * x0[j].0 - ac[i][j].1 * x0[j].1; s.1 += ac[i][j].0 * x0[j].1 + ac[i][j].1 * x0[j].0; } s }).collect();
+        let mut band = json!({"n": n, "m1": m1, "m2": m2, "c": {"r": n, "c": mm, "d": d}});
+        let mut case = json!({"kind": "lu", "ty": if cx { "cx" } else { "f64" }, "fam": "growth", "rho": rho, "variant": variant, "sharp": true, "regular": true, "graded": true, "aux": false,
+            "b": b.iter().map(|p| jfl(p.0)).collect::<Vec<Value>>()});
+        if cx { band["ci"] = json!({"r": n, "c": mm, "d": di}); case["bi"] = Value::from(b.iter().map(|p| jfl(p.1)).collect::<Vec<Value>>()); }
+        case["band"] = band;
+        push(case);
+        }
+    } } } }
+}
+
+// ------------------------------------------------------------------ Clone::clone_from, PartialEq, clone-and-drop
+/// One object led through a chain of `clone_from` calls whose sources stand in every relation to its current geometry: the same
+/// geometry, the same storage shape with another split, the same number of slots with another n, larger, smaller, n = 1 and
+/// back; sources built plainly, grown by resize, or cloned from a dropped original; the target fresh, mutated or resized just
+/// before.  After every call: the observers on the target and on the source, a write to one and a look at the other (both
+/// ways), clone_from in the opposite direction, == / != against a clone, a clone with one entry changed and an object with the
+/// same storage but another split.
+fn clonefrom_cases(rng: &mut StdRng, quick: bool, push: &mut dyn FnMut(Value)) {
+    let mut t = 0usize;
+    for n in 1..=(if quick { 5usize } else { 7 }) { for m1 in 0..n { for m2 in 0..n { for rep in 0..(if quick { 1 } else { 3 }) { t += 1;
+        let ty = TYS[(t + rep) % 3]; let cx = ty == "cx"; let exact = ty == "rat";
+        let mk = |rng: &mut StdRng, g: (usize, usize, usize)| { let mut b = rand_band_int(rng, g.0, g.1, g.2, -3, 3); if cx { b = with_im(rng, b, -3, 3); } b };
+        let band = mk(rng, (n, m1, m2));
+        // the chain of source geometries
+        let (ps, first) = partners(n, m1, m2);
+        let mut chain: Vec<(usize, usize, usize)> = vec![(n, m1, m2)];
+        if first > 0 { chain.push(ps[rng.gen_range(0..first)]); chain.push((n, m1, m2)); }
+        let slots: Vec<&(usize, usize, usize)> = ps[first..].iter().filter(|p| p.0 != n && p.0 * (p.1 + p.2 + 1) == n * (m1 + m2 + 1)).collect();
+        if !slots.is_empty() { chain.push(*slots[rng.gen_range(0..slots.len())]); }
+        chain.push((n + 2, (m1 + 1).min(n + 1), m2)); chain.push((n, m2, m1)); chain.push((1, 0, 0)); chain.push((n, m1, m2));
+        if quick && chain.len() > 6 { let k = rng.gen_range(1..chain.len() - 2); chain.remove(k); }
+        let mut ops = vec![json!({"op": "dims"}), json!({"op": "dense"})];
+        let mut cur = (n, m1, m2);
+        for (q, g) in chain.iter().enumerate() {
+            let src = mk(rng, *g);
+            // the target: as it is, mutated, or resized (to the source's storage shape with another split where there is one)
+            match (q + t) % 3 { 1 => ops.push(json!({"op": "mul_assign", "s": 2})),
+                2 => { let (p2, f2) = partners(g.0, g.1, g.2); let to = if f2 > 0 { p2[0] } else { *g }; ops.push(json!({"op": "resize", "n": to.0, "m1": to.1, "m2": to.2})); cur = to; } _ => {} }
+            let _ = cur;
+            ops.push(json!({"op": "aux_new", "b": src, "how": (["plain", "resized", "clone"][(q + rep + t) % 3])}));
+            ops.push(json!({"op": "clone_from"})); cur = *g;
+            let (gn, g1, g2) = *g;
+            let obs = |rng: &mut StdRng, full: bool| -> Vec<Value> { let mut v = vec![json!({"op": "dims"}), json!({"op": "dense"})];
+                let mut mv = json!({"op": "matvec", "form": if rng.gen_bool(0.5) { "own" } else { "ref" }, "v": rand_vec_json(rng, gn, -3, 3)}); if cx { mv["vi"] = rand_vec_json(rng, gn, -3, 3); } v.push(mv);
+                let b: Vec<i64> = (0..gn).map(|_| rng.gen_range(-5..=5)).collect();
+                if full && (!exact || fits_tlc(&dense_of(&src), &b)) { v.push(json!({"op": "det"})); let mut o = json!({"op": "solve", "b": b}); if cx { o["bi"] = rand_vec_json(rng, gn, -5, 5); } v.push(o); }
+                v };
+            ops.extend(obs(rng, true));
+            ops.push(json!({"op": "on_aux", "ops": obs(rng, true)}));
+            // independence, both ways
+            let (i, j) = loop { let i = rng.gen_range(0..gn); let j = rng.gen_range(0..gn); if in_band(gn, g1, g2, i, j) { break (i, j); } };
+            let mut st = json!({"op": "set", "i": i, "j": j, "x": 7}); if cx { st["xi"] = json!(-7); }
+            ops.push(st.clone()); ops.push(json!({"op": "aux_same"}));
+            st["x"] = json!(-6); ops.push(json!({"op": "on_aux", "ops": [st, {"op": "dense"}]})); ops.push(json!({"op": "dense"}));
+            // == / !=
+            ops.push(json!({"op": "eq", "with": "clone"})); ops.push(json!({"op": "eq", "with": "entry", "i": i, "j": j}));
+            let (p2, f2) = partners(gn, g1, g2);
+            if f2 > 0 { let o = p2[rng.gen_range(0..f2)]; let mut b = mk(rng, o); if (q + t) % 2 == 0 { b = src.clone(); b["m1"] = json!(o.1); b["m2"] = json!(o.2); } ops.push(json!({"op": "eq", "with": "other", "b": b})); }
+            // the opposite direction: a second object of the NEXT geometry of the chain takes a copy of this one
+            let nx = chain[(q + 1) % chain.len()];
+            ops.push(json!({"op": "aux_new", "b": mk(rng, nx), "how": (["clone", "plain", "resized"][(q + t) % 3])}));
+            ops.push(json!({"op": "clone_into"})); ops.push(json!({"op": "on_aux", "ops": obs(rng, false)}));
+            ops.push(json!({"op": "mul_assign", "s": -1})); ops.push(json!({"op": "aux_same"}));
+            ops.push(json!({"op": "reclone"})); ops.push(json!({"op": "dense"}));
+        }
+        if !cx { for o in ops.iter_mut() { if let Some(m) = o.as_object_mut() { m.remove("xi"); } } }
+        push(json!({"kind": "seq", "fam": "clone-from", "ty": ty, "band": band, "ops": ops}));
+    } } } }
 }
